@@ -97,6 +97,22 @@ def _c20():
     if not re.search(r"fn\s+is_block_height\(n:\s*u32\)\s*->\s*bool\s*\{\s*n\s*<\s*LOCK_TIME_THRESHOLD\s*\}", s) or \
        not re.search(r"fn\s+is_block_time\(n:\s*u32\)\s*->\s*bool\s*\{\s*n\s*>=\s*LOCK_TIME_THRESHOLD\s*\}", s):
         errors.append("is_block_height / is_block_time in src/locktime.rs are no longer `n < LOCK_TIME_THRESHOLD` / `n >= LOCK_TIME_THRESHOLD`")
+    # serde of LockTime: the enum and Serialize of Height / Time are derived; Deserialize of Height / Time goes through from_consensus
+    # (repair of F17; Model/Serde.v de_height / de_time transcribe that)
+    if not re.search(r"derive\(serde::Serialize,\s*serde::Deserialize\)\)\]\s*pub\s+enum\s+LockTime\s*\{", s):
+        errors.append("enum LockTime no longer derives serde::Serialize, serde::Deserialize")
+    for ty, ctor in (("Height", "Blocks"), ("Time", "Seconds")):
+        if not re.search(r"%s\(%s\)" % (ctor, ty), s):
+            errors.append("LockTime::%s(%s) variant not found" % (ctor, ty))
+        if not re.search(r"#\[cfg_attr\(feature = \"serde\", derive\(serde::Serialize\)\)\]\s*pub\s+struct\s+%s\(u32\);" % ty, s):
+            errors.append("struct %s(u32) no longer derives exactly serde::Serialize (a derived Deserialize does not validate the lock-time threshold: finding F17)" % ty)
+        if not re.search(r"impl_validated_newtype_deserialize!\(%s\);" % ty, s):
+            errors.append("impl_validated_newtype_deserialize!(%s) not found in src/locktime.rs" % ty)
+    b = body_after(s, r"macro_rules!\s+impl_validated_newtype_deserialize\s*\{", "macro impl_validated_newtype_deserialize in src/locktime.rs")
+    if b is not None:
+        if len(re.findall(r"\$ty::from_consensus\(n\)\.map_err\(serde::de::Error::custom\)", b)) != 2 or \
+           "<u32 as serde::Deserialize>::deserialize(d)?" not in b or "d.deserialize_newtype_struct(stringify!($ty), Visitor)" not in b:
+            errors.append("impl_validated_newtype_deserialize no longer reads a u32 newtype and validates it with from_consensus")
     lines.append("")
 
     # ---- OutPoint text form
